@@ -74,7 +74,17 @@ pub trait Interface: ErrorHandler {
                 #[cfg(feature = "defmt")]
                 defmt::trace!("Parse error");
                 self.handle_error(error.into());
-                return input;
+
+                // Discard the rest of the faulty program message including its
+                // terminator and continue with the next message.
+                match input.iter().position(|b| *b == b'\n') {
+                    Some(position) => {
+                        input = &input[position + 1..];
+                        header = self.root_node();
+                        continue;
+                    }
+                    None => return input,
+                }
             }
 
             let (i, call) = result.unwrap();
